@@ -166,7 +166,7 @@ def fdt_listing(w, reader, bbmd):
               "own); sub-second instants",
       stubs=STUBS,
       assumes=["grace = 30 s (J.5.2.3) is the upper bound the statement allows; 'at least the time-to-live' is absolute"])
-def foreign_scn(d, ttl_max, renew, action, ttl_min=1, wait_from=0):
+def foreign_scn(d, ttl_max, renew, action, ttl_min=1, wait_from=0, wait_to=None, at_max=None):
     w = World()
     nets, nodes, bbmds, foreign = layout(1, 1, 1, True)
     bb, simple, f = bbmds[0], nodes[1], foreign[0]
@@ -178,9 +178,9 @@ def foreign_scn(d, ttl_max, renew, action, ttl_min=1, wait_from=0):
     t_ack = w.clock
     if not renew:
         f.bip.suspend_task()            # no renewal: the registration must run out
-    wait = d.int(wait_from, ttl + GRACE + 6, 'wait')
+    wait = d.int(wait_from, ttl + GRACE + 6 if wait_to is None else wait_to, 'wait')
     if action == "unregister":
-        at = d.int(0, ttl, 'unregister_at')
+        at = d.int(0, ttl if at_max is None else at_max, 'unregister_at')
         d.assume(at <= wait)
         w.run(until=t_ack + at)
         f.bip.unregister()
@@ -258,6 +258,15 @@ def instances(tier):
                         path_timeout=90, label="renew,ttl=4,late"))
         out.append(Inst(foreign_scn, dict(ttl_max=1, renew=False, action="unregister"), budget=80, path_timeout=90))
         out.append(Inst(foreign_scn, dict(ttl_max=1, renew=False, action="delete"), budget=80, path_timeout=90))
+        # a time-to-live well above the grace period: unregistering must cut the registration short
+        out.append(Inst(foreign_scn, dict(ttl_min=60, ttl_max=60, renew=False, action="unregister", at_max=1, wait_from=30,
+                                          wait_to=40), budget=120, path_timeout=90, label="unregister,ttl=60"))
+        # the largest time-to-live of the statement (300 s), looked at around 255/256 s (one-octet boundary of the
+        # remaining-time bookkeeping) and at its end
+        out.append(Inst(foreign_scn, dict(ttl_min=300, ttl_max=300, renew=False, action="none", wait_from=253, wait_to=258),
+                        budget=150, path_timeout=120, label="ttl=300,around-255"))
+        out.append(Inst(foreign_scn, dict(ttl_min=300, ttl_max=300, renew=False, action="none", wait_from=298, wait_to=300),
+                        budget=150, path_timeout=120, label="ttl=300,at-end"))
     else:
         for nsub in (1, 2, 3):
             for two_hop in (True, False):
@@ -272,4 +281,13 @@ def instances(tier):
         out.append(Inst(foreign_scn, dict(ttl_max=4, renew=False, action="unregister"), budget=900, path_timeout=120))
         out.append(Inst(foreign_scn, dict(ttl_max=4, renew=True, action="unregister"), budget=900, path_timeout=120))
         out.append(Inst(foreign_scn, dict(ttl_max=4, renew=False, action="delete"), budget=900, path_timeout=120))
+        out.append(Inst(foreign_scn, dict(ttl_min=60, ttl_max=60, renew=False, action="unregister", at_max=3, wait_from=0,
+                                          wait_to=70), budget=900, path_timeout=120, label="unregister,ttl=60"))
+        out.append(Inst(foreign_scn, dict(ttl_min=60, ttl_max=60, renew=True, action="unregister", at_max=3, wait_from=0,
+                                          wait_to=70), budget=900, path_timeout=120, label="unregister,renewing,ttl=60"))
+        for ttl in (255, 256, 300):
+            out.append(Inst(foreign_scn, dict(ttl_min=ttl, ttl_max=ttl, renew=False, action="none", wait_from=240),
+                            budget=1500, path_timeout=180, label="ttl=%d,late" % ttl))
+        out.append(Inst(foreign_scn, dict(ttl_min=300, ttl_max=300, renew=True, action="none", wait_from=250, wait_to=340),
+                        budget=1500, path_timeout=180, label="renew,ttl=300"))
     return out
